@@ -98,6 +98,30 @@ def check_tree(sp):
                         f"tree codes {[x[0].name for x in terrs][:6]} vs {[x[0].name for x in concat][:6]}", case)
     if (not terrs) != (t == "ok"):
         raise Violation("modes-disagree", f"fail-fast {t} but {len(terrs)} collected errors", case)
+    # a walk that failed fast must leave nothing behind: after it, an EARLIER node is made invalid and the tree is walked
+    # again - the result is again what the nodes give one by one
+    first_bad = next((i for i, l in enumerate(lists) if l), None)
+    if t != "ok" and first_bad:
+        run_tree(root)                                   # fails fast at node first_bad
+        earlier = N[(first_bad - 1) // 2][0]
+        earlier.add_attribute("zzAddedLater", "1")
+        lists2 = []
+        for n, _ in N:
+            e = []
+            run_node(n, e)
+            lists2.append(e)
+        terrs2 = []
+        r2 = run_tree(root, terrs2)
+        concat2 = [x for lst in lists2 for x in lst]
+        if r2 in ("ok", "errs") or not r2.startswith("other"):
+            if norm(terrs2) != norm(concat2):
+                raise Violation("walk-after-a-failed-walk-differs",
+                                f"after a fail-fast walk had raised, {earlier.name!r} (earlier in document order) was made invalid: the "
+                                f"next walk lists {[x[0].name for x in terrs2][:6]}, the nodes one by one {[x[0].name for x in concat2][:6]}", case)
+            t2 = run_tree(root)
+            if t2 == "ok":
+                raise Violation("walk-after-a-failed-walk-differs", "fail-fast walk accepts the tree after an earlier node was made invalid", case)
+        earlier.remove_attribute("zzAddedLater")
     index = {id(n): i for i, (n, _) in enumerate(N)}
     sig = (t, tuple((x[0].name, x[1], index.get(id(x[2]))) for x in terrs))
     depths = {d for (n, d), l in zip(N, lists) if l}
